@@ -16,16 +16,19 @@ EXTENDS Arith, TLC
 
 CONSTANT N
 
-VARIABLES part, x, y, z
-vars == <<part, x, y, z>>
-Stutter == UNCHANGED vars
+(* ph = 0: only x is chosen (initial states, computed by TLC's main thread);   *)
+(* ph = 1: y, z chosen by the Next action, so that the laws are evaluated by   *)
+(* the worker threads                                                          *)
+VARIABLES ph, part, x, y, z
+vars == <<ph, part, x, y, z>>
 
 (* --------------------------------- ints --------------------------------- *)
-IntsInit == part = "ints" /\ x \in -N..N /\ y \in -N..N /\ z = 0
+IntsInit == ph = 0 /\ part = "ints" /\ x \in -N..N /\ y = 0 /\ z = 0
+IntsNext == ph = 0 /\ part = "ints" /\ ph' = 1 /\ y' \in -N..N /\ UNCHANGED <<part, x, z>>
 ISign(a) == IF a < 0 THEN -1 ELSE IF a > 0 THEN 1 ELSE 0
 IRoundDiv(a, m) == ISign(a) * ((2 * IAbs(a) + m) \div (2 * m))     \* half away from zero
 IntsAgree ==
-  part = "ints" =>
+  (ph = 1 /\ part = "ints") =>
   LET a == FromInt(x)
       b == FromInt(y)
   IN /\ IsBig(a) /\ ToInt(a) = x
@@ -64,10 +67,11 @@ Mags == IF N = 0
                FromInt(100000000), P2_31, P2_32, Sub(P2_63, One), P2_63, P2_64, P2_127, Sub(P2_128, One),
                Sub(Pow10(38), One), Pow10(38), P2_255, Sub(P2_256, One), Pow10(76) }
 Univ == Mags \cup {Neg(m) : m \in Mags}
-LawsInit == part = "laws" /\ x \in Univ /\ y \in Univ /\ z \in Univ
+LawsInit == ph = 0 /\ part = "laws" /\ x \in Univ /\ y = Zero /\ z = Zero
+LawsNext == ph = 0 /\ part = "laws" /\ ph' = 1 /\ y' \in Univ /\ z' \in Univ /\ UNCHANGED <<part, x>>
 Widths == {<<32, 1>>, <<32, 0>>, <<64, 1>>, <<64, 0>>, <<128, 1>>, <<256, 1>>}
 Laws ==
-  part = "laws" =>
+  (ph = 1 /\ part = "laws") =>
   /\ IsBig(Add(x, y)) /\ IsBig(Sub(x, y)) /\ IsBig(Mul(x, y))
   /\ Sub(Add(x, y), y) = x
   /\ Add(Sub(x, y), y) = x
@@ -80,7 +84,7 @@ Laws ==
   /\ (Cmp(x, y) = 0) = (x = y)
   /\ (Le(x, y) /\ Le(y, z) => Le(x, z))
   /\ Cmp(x, y) = Sign(Sub(x, y))
-  /\ \A k \in {0, 1, 3, 4, 5, 18, 38} :
+  /\ \A k \in (IF N = 0 THEN {0, 1, 5, 38} ELSE {0, 1, 3, 4, 5, 18, 38}) :
        /\ MulPow10(x, k) = Mul(x, Pow10(k))
        /\ TruncDivPow10(MulPow10(x, k), k) = x
        /\ DivisibleByPow10(MulPow10(x, k), k)
@@ -105,7 +109,8 @@ Laws ==
 
 (* ---------------------------------- w8 ---------------------------------- *)
 W8Xs == IF N = 0 THEN {-128, -1, 0, 3, 127, 128, 255} ELSE -128..255
-W8Init == part = "w8" /\ x \in W8Xs /\ y \in -128..255 /\ z = 0
+W8Init == ph = 0 /\ part = "w8" /\ x \in W8Xs /\ y = 0 /\ z = 0
+W8Next == ph = 0 /\ part = "w8" /\ ph' = 1 /\ y' \in -128..255 /\ UNCHANGED <<part, x, z>>
 NatOps == {"add", "sub", "mul", "neg", "add_w", "sub_w", "mul_w", "neg_w", "div", "rem", "div_c",
            "rem_c", "div_w", "rem_w"}
 CheckedOf(op) == CASE op = "add_w" -> "add" [] op = "sub_w" -> "sub" [] op = "mul_w" -> "mul" [] op = "neg_w" -> "neg"
@@ -130,7 +135,7 @@ AgreeAt(w, sg, a, b) ==
           /\ (IVal(op, w, sg, a, b) - IExact(op, a, b)) % (2 ^ w) = 0
           /\ (~IRowErr(CheckedOf(op), w, sg, a, b) => IVal(op, w, sg, a, b) = IVal(CheckedOf(op), w, sg, a, b)))
 W8Agree ==
-  part = "w8" =>
+  (ph = 1 /\ part = "w8") =>
   /\ (IIn(8, 1, x) /\ IIn(8, 1, y) => AgreeAt(8, 1, x, y))
   /\ (IIn(8, 0, x) /\ IIn(8, 0, y) => AgreeAt(8, 0, x, y))
   (* wrapping is a ring homomorphism Z -> Z/2^w (w = 4 synthetic, and 8)     *)
@@ -152,13 +157,14 @@ W8Agree ==
           /\ IRowErr("mul", 16, 0, a, b) = (a # 0 /\ b # 0 /\ a > 65535 \div b)
 
 (* -------------------------------- kleene -------------------------------- *)
-KleeneInit == part = "kleene" /\ x \in 0..2 /\ y \in 0..2 /\ z = 0
+KleeneInit == ph = 0 /\ part = "kleene" /\ x \in 0..2 /\ y = 0 /\ z = 0
+KleeneNext == ph = 0 /\ part = "kleene" /\ ph' = 1 /\ y' \in 0..2 /\ UNCHANGED <<part, x, z>>
 And2(a, b) == a * b
 Or2(a, b) == Max2(a, b)
 AndNot2(a, b) == a * (1 - b)
 Strict(f(_, _), a, b) == IF a = 2 \/ b = 2 THEN 2 ELSE f(a, b)
 Kleene ==
-  part = "kleene" =>
+  (ph = 1 /\ part = "kleene") =>
   /\ And3(x, y) = ByCompletion(And2, x, y)
   /\ Or3(x, y) = ByCompletion(Or2, x, y)
   /\ Not3(x) = (IF x = 2 THEN 2 ELSE 1 - x)
@@ -170,7 +176,8 @@ Kleene ==
   /\ AndNotN(x, y) = Strict(AndNot2, x, y)
   /\ (x # 2 /\ y # 2 => And3(x, y) = AndN(x, y) /\ Or3(x, y) = OrN(x, y))
 
-IntsSpec == IntsInit /\ [][Stutter]_vars
+IntsSpec == IntsInit /\ [][IntsNext]_vars
 BigInit == LawsInit \/ W8Init \/ KleeneInit
-BigSpec == BigInit /\ [][Stutter]_vars
+BigNext == LawsNext \/ W8Next \/ KleeneNext
+BigSpec == BigInit /\ [][BigNext]_vars
 =============================================================================
